@@ -293,10 +293,35 @@ def groupsCmd (j : Json) : R Json := do
         ("wd", fbits g.wd),
         ("extra", Json.arr (g.extra.map fun (a, b) => Json.arr #[Json.str a, Json.str b]).toArray)]).toArray)])
 
+def asInt (v : Json) : R Int :=
+  match v.getInt? with
+  | .ok n => pure n
+  | .error e => .error e
+
+/-- C18: forward pass and reverse sweep of a DAG program over integer vectors; returns what the
+    trackers log (value, gradient or null) per node -/
+def dagCmd (j : Json) : R Json := do
+  let specs ← (← jarr j "nodes").toList.mapM fun v => do
+    match ← jstr v "op" with
+    | "input" => pure (DSpec.input (← (← jarr v "v").toList.mapM asInt))
+    | "lin" => pure (DSpec.lin (← jnats v "ins") (← (← jarr v "w").toList.mapM asInt))
+    | "mul" => match ← jnats v "ins" with
+      | [a, b] => pure (DSpec.mul a b)
+      | _ => .error "mul needs two inputs"
+    | o => .error s!"unknown dag op {o}"
+  let seeds ← (← jarr j "seed").toList.mapM fun v => do
+    pure ((← jnat v "node"), (← (← jarr v "g").toList.mapM asInt))
+  let seed : Nat → Option (List Int) := fun k => (seeds.find? (·.1 == k)).map (·.2)
+  let log := dagLog (specs.map DSpec.toNode) seed
+  let vj := fun (l : List Int) => Json.arr (l.map ji).toArray
+  pure (Json.mkObj [("log", Json.arr (log.map fun (v, g) =>
+    Json.mkObj [("v", vj v), ("g", match g with | none => Json.null | some g => vj g)]).toArray)])
+
 def handle (j : Json) : R Json := do
   let k ← jstr j "k"
   match k with
   | "ping" => pure (Json.mkObj [("pong", jn 1)])
+  | "dag" => dagCmd j
   | "bind" =>
       -- {"target": "Q.linear", "nargs": 3, "kw": ["bias"]}: positional i is the literal "a<i>", keyword k the literal "k:<k>"
       let t ← jstr j "target"
